@@ -407,14 +407,16 @@ class Loop(SubCheck):
                             "The replay runs the real module's run_haplotag on real pysam.AlignedSegment records and compiled whatshap.core objects under the same file stand-ins; real BAM/VCF file I/O is outside"]
     required_cover = ["supplementary tagged like its primary", "supplementary left untagged", "secondary untagged", "placed unmapped untagged", "stale tags removed from an untagged record",
                       "tagged record", "regions given", "unmapped tail copied", "mates share the tag", "duplicate-flagged record tagged",
-                      "contig holding only a placed unmapped record"]
+                      "contig holding only a placed unmapped record", "record starting on the first base of a later region"]
     max_decisions = 20000
 
     def shapes(self, tier):
         out = []
         others = "MSXQDU"
         two = ["chr1:1-125", "chr1:126-400"]
-        plan = [(3, [None, ["chr1:1-125"], two])] if tier == "quick" else [(3, [None, ["chr1:1-125"], two, ["chr1:120-400", "chr1:1-130"]]), (4, [None, two])]
+        # adjacent windows whose boundary falls on the first base of a record (records start at 100, 110, 120, ... 0-based)
+        edge = ["chr1:1-120", "chr1:121-400"]
+        plan = [(3, [None, ["chr1:1-125"], two, edge])] if tier == "quick" else [(3, [None, ["chr1:1-125"], two, edge, ["chr1:120-400", "chr1:1-130"], ["chr1:1-110", "chr1:111-120", "chr1:121-400"]]), (4, [None, two, edge])]
         for n, regs in plan:
             for ppos in range(n):
                 for rest in itertools.product(others, repeat=n - 1):
@@ -509,6 +511,9 @@ class Loop(SubCheck):
                            reads={k: [(p, a, e.value(q)) for p, a, q in v] for k, v in rvars.items()})
         if regions is not None:
             e.cover("regions given")
+            starts0 = [int(r.split(":")[1].split("-")[0]) - 1 for r in regions]
+            if any(spans[id(a)] is not None and len(spans[id(a)]) == 2 and spans[id(a)][0] in starts0[1:] for a in recs):
+                e.cover("record starting on the first base of a later region")
         key = lambda rec: (rec[0], rec[1], rec[2])
         by_key = {key(b): b for b in before}
         strip = lambda tags: [(k, v) for k, v in tags if k not in ("HP", "PS", "PC")]
